@@ -45,7 +45,10 @@ Override(base, ds) ==
           c \in {c \in Choices : \A d \in ds : c[d] \in SeqRange(Dims[d]) /\ c[d] # base[d]}}
 Singles == UNION {Override(Baseline, {d}) : d \in DimNames}
 Pairs(F) == UNION {UNION {Override(Baseline, {d, e}) : e \in F \ {d}} : d \in F}
-Cases == {Baseline} \cup (IF K >= 1 THEN Singles ELSE {}) \cup Pairs(Focus)
+\* a field pinned to exactly the value the quote carries does not excuse that value from the fixed-bit masks
+PinnedBits == {[Baseline EXCEPT !.xfam = "equal", !.xfamBits = b] : b \in SeqRange(Dims.xfamBits)}
+              \cup {[Baseline EXCEPT !.tdAttributes = "equal", !.tdAttrBits = b] : b \in SeqRange(Dims.tdAttrBits)}
+Cases == {Baseline} \cup (IF K >= 1 THEN Singles \cup PinnedBits ELSE {}) \cup Pairs(Focus)
 Modes == {"options", "policy", "policySparse"}
 \* policySparse: a policy message whose sub-messages (header policy, TD quote body policy) are absent when nothing in them is configured
 IsPolicy(m) == m \in {"policy", "policySparse"}
